@@ -1,5 +1,5 @@
 from mindsdb_sql.parser.ast.base import ASTNode
-from mindsdb_sql.parser.utils import indent
+from mindsdb_sql.parser.utils import indent, kw_parameters_to_string
 
 
 class CombiningQuery(ASTNode):
@@ -14,6 +14,9 @@ class CombiningQuery(ASTNode):
         self.left = left
         self.right = right
         self.unique = unique
+        # the parser puts these on the node when they are written around a parenthesised operation
+        self.cte = None
+        self.using = None
 
         if self.alias:
             self.parentheses = True
@@ -22,23 +25,53 @@ class CombiningQuery(ASTNode):
         ind = indent(level)
         ind1 = indent(level+1)
 
+        cte_str = ''
+        if self.cte:
+            cte_trees = ',\n'.join([t.to_tree(level=level + 2) for t in self.cte])
+            cte_str = f'\n{ind1}cte=[\n{cte_trees}\n{ind1}],'
+
         left_str = f'\n{ind1}left=\n{self.left.to_tree(level=level + 2)},'
         right_str = f'\n{ind1}right=\n{self.right.to_tree(level=level + 2)},'
 
+        using_str = ''
+        if self.using is not None:
+            using_str = f'\n{ind1}using={repr(self.using)},'
+
         cls_name = self.__class__.__name__
         out_str = f'{ind}{cls_name}(unique={repr(self.unique)},' \
+                  f'{cte_str}' \
                   f'{left_str}' \
                   f'{right_str}' \
+                  f'{using_str}' \
                   f'\n{ind})'
         return out_str
 
+    @staticmethod
+    def operand_to_string(operand, is_right):
+        out_str = str(operand)
+        if isinstance(operand, CombiningQuery) and not operand.parentheses:
+            # operations are read from left to right: an operation on the right side, or one that has
+            # its own WITH / USING, is kept together by parentheses
+            if is_right or operand.cte is not None or operand.using is not None:
+                out_str = f'({out_str})'
+        return out_str
+
     def get_string(self, *args, **kwargs):
-        left_str = str(self.left)
-        right_str = str(self.right)
+        left_str = self.operand_to_string(self.left, is_right=False)
+        right_str = self.operand_to_string(self.right, is_right=True)
         keyword = self.operation
         if not self.unique:
             keyword += ' ALL'
         out_str = f"""{left_str}\n{keyword}\n{right_str}"""
+
+        if self.cte is not None or self.using is not None:
+            # WITH / USING of the whole operation (without parentheses they belong to the first / last select)
+            out_str = f'({out_str})'
+            if self.cte is not None:
+                cte_str = ', '.join([out.to_string() for out in self.cte])
+                out_str = f'WITH {cte_str} {out_str}'
+            if self.using is not None:
+                out_str += ' USING ' + kw_parameters_to_string(self.using)
 
         return out_str
 
